@@ -51,12 +51,14 @@ func runAll(lines []string, emit func(i int, answer string)) {
 	par := envInt("MPXFLOW_PAR", 4)
 	cfg := config{
 		settle:   time.Duration(envInt("MPXFLOW_SETTLE_MS", 25)) * time.Millisecond,
-		resettle: time.Duration(envInt("MPXFLOW_RESETTLE_MS", 100)) * time.Millisecond,
+		resettle: time.Duration(envInt("MPXFLOW_RESETTLE_MS", 1000)) * time.Millisecond,
 		overall:  10 * time.Second,
 		// MPXFLOW_PACE_US is a diagnostic knob, off by default: it pauses after every admitted
 		// message so that the connection send loop is parked before the next frame is queued.
 		pace: time.Duration(envInt("MPXFLOW_PACE_US", 0)) * time.Microsecond,
 	}
+
+	cfg.overall += 60*cfg.settle + 2*cfg.resettle
 
 	answers := make([]string, len(lines))
 	ready := make([]chan struct{}, len(lines))
